@@ -79,7 +79,16 @@ pub fn apply_elide(e: &Envelope, t: &BTreeSet<D32>, reveal: bool, action: Obs, f
         (4, r, _) if provs.len() == 1 => e.elide_target_with_action(provs[0], r, &act),
         (5, false, Obs::Elide) if provs.len() == 1 => e.elide_removing_target(provs[0]),
         (5, true, Obs::Elide) if provs.len() == 1 => e.elide_revealing_target(provs[0]),
-        (_, r, _) => e.elide_set_with_action(&hs, r, &act),
+        // the generic forms (is_revealing as an argument); which one is a function of the target set, so no
+        // further choice is drawn
+        (f, r, a) => match ((t.len() + f) % 6, a) {
+            (1, _) => e.elide_array_with_action(&provs, r, &act),
+            (2, Obs::Elide) => e.elide_set(&hs, r),
+            (3, Obs::Elide) => e.elide_array(&provs, r),
+            (4, _) if provs.len() == 1 => e.elide_target_with_action(provs[0], r, &act),
+            (5, Obs::Elide) if provs.len() == 1 => e.elide_target(provs[0], r),
+            _ => e.elide_set_with_action(&hs, r, &act),
+        },
     }
 }
 
